@@ -96,6 +96,7 @@ pub struct ConcResult {
     pub wf: Vec<String>,
     pub panicked: Vec<usize>,
     pub len_final: usize,
+    pub life_failures: Vec<String>,
 }
 
 type M = HashMap<K, V, TableHasher>;
@@ -230,7 +231,14 @@ fn exec(m: &M, op: &COp, pin: bool, yielded: &mut Vec<(u32, u64, u32)>, closure_
 pub fn run_conc(case: &ConcCase, record_all: bool, budget: usize) -> ConcResult {
     let th = TableHasher { table: Arc::new(case.hashes.clone()) };
     set_default_table(th.table.clone());
+    if record_all {
+        ledger_reset(false);
+        VAL_DROPS.lock().unwrap().clear();
+    }
     let map: Arc<M> = Arc::new(HashMap::with_capacity_and_hasher(case.cap, th));
+    if record_all {
+        crate::life::set_current_map(Some(&map));
+    }
     {
         let g = map.guard();
         for (k, v, o) in &case.prefill {
@@ -271,9 +279,13 @@ pub fn run_conc(case: &ConcCase, record_all: bool, budget: usize) -> ConcResult 
         // threads are stuck at yield points: leak them (the process exits after reporting)
         std::mem::forget(handles);
     }
-    let (trace, pan) = {
+    let (trace, pan, notes) = {
         let g = s.inner.lock().unwrap();
-        (g.trace.clone(), g.threads.iter().enumerate().filter(|(_, t)| t.panicked).map(|(i, _)| i).collect::<Vec<_>>())
+        (
+            g.trace.clone(),
+            g.threads.iter().enumerate().filter(|(_, t)| t.panicked).map(|(i, _)| i).collect::<Vec<_>>(),
+            g.notes.iter().map(|n| n.text.clone()).collect::<Vec<_>>(),
+        )
     };
     panicked.extend(pan);
     s.shutdown();
@@ -296,11 +308,26 @@ pub fn run_conc(case: &ConcCase, record_all: bool, budget: usize) -> ConcResult 
                 other => wf.push(format!("iteration yields key {} -> ({}, {}) but get() finds {:?}", k, v, o, other.map(|x| (x.payload, x.origin)))),
             }
         }
-    } else {
-        std::mem::forget(map);
     }
     let calls = calls.lock().unwrap().clone();
-    ConcResult { calls, trace, outcome, final_contents, final_snap, wf, panicked, len_final }
+    let mut life_failures = vec![];
+    crate::life::set_current_map(None);
+    if outcome.deadlock || outcome.budget_exceeded {
+        std::mem::forget(map);
+    } else if record_all {
+        life_failures.extend(notes.into_iter().filter(|n| n.starts_with('[')));
+        let spans: Vec<crate::life::GuardSpan> = calls.iter().map(|c| crate::life::GuardSpan { tid: c.tid, from: c.inv, to: c.resp }).collect();
+        let drops = VAL_DROPS.lock().unwrap().clone();
+        life_failures.extend(crate::life::analyze(&trace, &spans, &drops));
+        // teardown: the map (and the collector it owns) goes away; then every instance ever
+        // created must have been dropped exactly once
+        match Arc::try_unwrap(map) {
+            Ok(m) => drop(m),
+            Err(_) => life_failures.push("[drop] the map is still shared after all threads were joined".into()),
+        }
+        life_failures.extend(crate::life::ledger_verdict());
+    }
+    ConcResult { calls, trace, outcome, final_contents, final_snap, wf, panicked, len_final, life_failures }
 }
 
 // ------------------------------------------------------------------------------------------
@@ -395,12 +422,38 @@ pub struct Verdicts {
     pub failures: Vec<String>,
     pub keys_checked: usize,
     pub witnesses: BTreeMap<u32, Vec<usize>>,
+    /// one `lin init=.. fin=.. calls=.. order=..` line per key, for the Lean certificate checker
+    pub lin_lines: Vec<String>,
+}
+
+fn kst_txt(s: KState) -> String {
+    match s.0 {
+        Some((p, o)) => format!("{}.{}", p, o),
+        None => "-".into(),
+    }
+}
+
+fn call_txt(c: &Call) -> Option<String> {
+    let res = c.result.split(" | ").next().unwrap_or("");
+    let op = match &c.op {
+        COp::Ins(_, v, o) => format!("ins.{}.{}", v, o),
+        COp::TryIns(_, v, o) => format!("tryins.{}.{}", v, o),
+        COp::Get(_) | COp::GetKv(_) => "get".into(),
+        COp::Has(_) => "has".into(),
+        COp::Rm(_) | COp::Rme(_) => "rm".into(),
+        COp::CipInc(_, o) => format!("cipinc.{}", o),
+        COp::CipRm(_) => "ciprm".into(),
+        _ => return None,
+    };
+    let r = res.replace(' ', ".");
+    Some(format!("{}:{}:{}:{}:{}", c.tid, op, r, c.inv, c.resp))
 }
 
 /// all per-key / whole-run oracles of one scheduled run
 pub fn judge(case: &ConcCase, r: &ConcResult) -> Verdicts {
     let mut f = vec![];
     let mut witnesses = BTreeMap::new();
+    let mut lin_lines = vec![];
     if r.outcome.deadlock {
         f.push(format!("[deadlock] no unfinished thread can take a step: {:?}", r.outcome.blocked));
     }
@@ -425,6 +478,18 @@ pub fn judge(case: &ConcCase, r: &ConcResult) -> Verdicts {
             keys_checked += 1;
             match linearize(&cs, init, Some(fin)) {
                 Some(w) => {
+                    if cs.len() <= 40 {
+                        let calls_txt: Option<Vec<String>> = cs.iter().map(call_txt).collect();
+                        if let Some(ct) = calls_txt {
+                            lin_lines.push(format!(
+                                "lin init={} fin={} calls={} order={}",
+                                kst_txt(init),
+                                kst_txt(fin),
+                                if ct.is_empty() { "-".to_string() } else { ct.join(",") },
+                                if w.is_empty() { "-".to_string() } else { w.iter().map(|i| i.to_string()).collect::<Vec<_>>().join(".") }
+                            ));
+                        }
+                    }
                     witnesses.insert(*k, w);
                 }
                 None => {
@@ -461,7 +526,7 @@ pub fn judge(case: &ConcCase, r: &ConcResult) -> Verdicts {
     for w in &r.wf {
         f.push(format!("[quiescent] {}", w));
     }
-    Verdicts { failures: f, keys_checked, witnesses }
+    Verdicts { failures: f, keys_checked, witnesses, lin_lines }
 }
 
 // ------------------------------------------------------------------------------------------
